@@ -157,7 +157,7 @@ def run_traces(case, parser_hook=None):
     if parser_hook:
         parser_hook(parser)
     events = [from_kd_buf(bytes.fromhex(h)) for h in case['events']]
-    outs, err = [], '-'
+    outs, err, kept = [], '-', []
     try:
         for t in parser.feed_generator(iter(events)):
             name = codes.get(t.ktraces[0].eventid, '?')
@@ -166,9 +166,37 @@ def run_traces(case, parser_hook=None):
             except Exception as e:
                 txt = '!' + core.err_name(e)
             outs.append({'name': name, 'ts': [k.timestamp for k in t.ktraces], 'text': txt, 'extra': extra_of(t)})
+            kept.append(t)
     except Exception as e:
         err = core.err_name(e)
+    # a trace that has been reported stays as reported: rendered again after the rest of the stream was read
+    for o, t in zip(outs, kept):
+        try:
+            late = hs(str(t))
+        except Exception as e:
+            late = '!' + core.err_name(e)
+        if (late, extra_of(t), [k.timestamp for k in t.ktraces]) != (o['text'], o['extra'], o['ts']):
+            o['text'] = '!' + CHANGED + ':' + o['text'] + ':' + late
     return outs, err, parser
+
+
+CHANGED = 'ChangedAfterYield'
+
+
+def changed_after_yield(got):
+    """Oracle shared by every user of the pipeline harness: (signature, text) when a reported trace object was
+    modified while later records were read."""
+    if CHANGED not in got:
+        return None
+    for item in got.split(' '):
+        if CHANGED in item:
+            parts = item.split('|')
+            bits = parts[2].split(':') if len(parts) > 2 else []
+            first = hs_decode(bits[1]) if len(bits) > 1 else '?'
+            late = hs_decode(bits[2]) if len(bits) > 2 else '?'
+            return ('trace:changed-after-yield', 'a %s trace read %r when it was reported and %r after the rest of the stream '
+                    'had been read' % (parts[0], first, late))
+    return ('trace:changed-after-yield', 'a reported trace changed while later records were read')
 
 
 def answer(outs, err, parser):
@@ -265,6 +293,8 @@ def add_operation(s, rng, tids, syscalls=SYSCALLS):
         s.threadname(tid, D.rand_path(rng)[:70], rng.random() < 0.3, between=unrelated_trace_record(s, rng, tid))
     elif k < 0.75:
         s.ev('TRACE_DATA_THREAD_TERMINATE', NONE, tid, [rng.choice(tids + [150]), 0, 0, 0])
+        if rng.random() < 0.5:                         # the kernel's thread exit: the pid record follows on the same thread
+            s.ev('TRACE_DATA_THREAD_TERMINATE_PID', NONE, tid, [rng.randrange(1, 50), 7, 0, 0])
     elif k < 0.79:
         s.ev('TRACE_DATA_THREAD_TERMINATE_PID', NONE, tid, [rng.randrange(1, 50), 7, 0, 0])
     elif k < 0.82:
@@ -326,8 +356,11 @@ def unmodelled(ans):
 def section_pipeline(rep, rng, tier, n=None, oracle_fn=None, name='pipeline'):
     n = n or (300 if tier == 'quick' else 12000)
     cases = [random_scenario(rng) for _ in range(n)]
+
+    def oracle(case, got):
+        return changed_after_yield(got) or (oracle_fn(case, got) if oracle_fn else None)
     core.run_section(
-        rep, name, cases, line_fn=line, impl_fn=impl_fn, oracle_fn=oracle_fn, skip_fn=unmodelled,
+        rep, name, cases, line_fn=line, impl_fn=impl_fn, oracle_fn=oracle, skip_fn=unmodelled,
         nontrivial_fn=lambda c, got: ' ' in got.split(' ;')[0][3:] or '|' in got,
         kind_fn=lambda c, got: 'err=' + parse_answer(got)[1],
         rule='random streams of complete operations (syscalls with kernel-encoded lookups, new-thread/exec pairs, global '
@@ -676,6 +709,31 @@ def e2e_cached_lines(c, k):
     return _E2E_CACHE[key]
 
 
+_E2E_MAT = {}
+
+
+def e2e_materialised(c, k):
+    """The observer that keeps the trace OBJECTS: list(traces(whole[:k])) up to the end or the exception, then str() of each
+    object — (texts taken at the yield, texts taken after the stream was read)."""
+    import io
+    key = (c['whole'], k, c['tid'], tuple(c['classes']), tuple(c['subs']), c['proc'])
+    if key not in _E2E_MAT:
+        if len(_E2E_MAT) > 4000:
+            _E2E_MAT.clear()
+        whole = bytes.fromhex(c['whole'])
+        p = e2e_parser(c, 'case')
+        codes = {int(kk): v for kk, v in c['codes'].items()}
+        kept, early = [], []
+        try:
+            for t in p.traces(io.BytesIO(whole if k is None else whole[:k]), codes):
+                kept.append(t)
+                early.append(str(t))
+        except Exception:
+            pass
+        _E2E_MAT[key] = (early, [str(t) for t in kept])
+    return _E2E_MAT[key]
+
+
 def e2e_show(lines, n=3):
     return '%d lines %r' % (len(lines), [x[:60] for x in lines[:n]])
 
@@ -704,6 +762,19 @@ def e2e_oracle(c, got):
                         'the complete records alone' % (k, kb, k - kb, len(lines), len(at_b)))
         elif lines and not c['k1']:
             return ('e2e:line-before-first-record', 'cut at %d, first record at %d: %s' % (k, hdr, e2e_show(lines)))
+        # the same for an observer that keeps the trace objects and prints them afterwards
+        _, cut_late = e2e_materialised(c, k)
+        _, full_late = e2e_materialised(c, None)
+        if cut_late != full_late[:len(cut_late)]:
+            i = next((j for j, (a, b) in enumerate(zip(cut_late, full_late)) if a != b), min(len(cut_late), len(full_late)))
+            return ('e2e:cut-not-prefix-materialised', 'cut at %d: trace %d of list(traces(cut)) reads %r, of list(traces(whole)) '
+                    '%r' % (k, i, cut_late[i][:100] if i < len(cut_late) else None,
+                            full_late[i][:100] if i < len(full_late) else None))
+    early, late = e2e_materialised(c, k)
+    if early != late:
+        i = next(j for j, (a, b) in enumerate(zip(early, late)) if a != b)
+        return ('e2e:trace-changed-after-yield', 'trace %d read %r when traces() reported it and %r after the rest of the dump had '
+                'been read' % (i, early[i][:100], late[i][:100]))
     # C14: formatted_traces adds nothing to / drops nothing from traces(); header = first record + tables at the yield
     exp, exp_err = e2e_expected_from_traces(c, data)
     if exp != lines or exp_err != err:
